@@ -489,6 +489,8 @@ def check_caret_sim(chk, pm):
                 if not isinstance(msg, str):
                     raise Unrecognised('C06.A', f'the constructor does not pass a text message to the base class ({msg!r})', mod.rel)
                 a = obj.attrs
+                if any(isinstance(a.get(k), Sym) for k in ('line', 'column_number', 'line_number', 'error')):
+                    raise Unrecognised('C06.A', f'the constructor stores an unmodelled value ({a!r})'[:160], mod.rel)
                 if a.get('line') != line or a.get('column_number') != col or a.get('line_number') != lineno or a.get('error') != 'Syntax error':
                     chk.bad('C06.A', mod, 'BareScriptParserError.__init__', f'attributes for a line of {L} characters, column {col}',
                             f'the error does not carry what it was given: error={a.get("error")!r}, len(line)={len(a.get("line")) if isinstance(a.get("line"), str) else a.get("line")!r} '
